@@ -45,8 +45,46 @@ theorem c07_execution_order_rollback_counterexample :
     InsertionGroup trapModel trapStart trapOps :=
   NR.Proofs.Group.fifo_rollback_counterexample
 
+/-! ### `UnPlan` of a unit of units (as repaired, E16): all-or-nothing too -/
+
+/-- Un-planning a plan-all unit member by member and, at the first member whose un-plan is rejected — by whatever exact
+check —, planning the members un-planned so far again where they were, last un-planned first: the rollback ALWAYS goes
+through (the Go's error branch "failed undoing failed unplan" is unreachable) and routes, cached values of every planned
+stop and score are exactly what they were. For every model, every state satisfying the engine invariant and EVERY list of
+members (vehicle, own stops) — no hypothesis on them. -/
+theorem c07_group_unplan_rollback_restores (m : Model S σ τ) (st st' : MState S σ τ) (mbs : List (Nat × List S)) (u : Bool)
+    (hinv : MInv m st) (h : unplanGroup m st [] mbs = (st', false, u)) :
+    u = true ∧ mobs st' = mobs st ∧ MInv m st' :=
+  NR.Proofs.Group.unplanGroup_rejected m st st' mbs u hinv h
+
+theorem c07_group_unplan_accepted_keeps_invariant (m : Model S σ τ) (st st' : MState S σ τ) (mbs : List (Nat × List S)) (u : Bool)
+    (hinv : MInv m st) (h : unplanGroup m st [] mbs = (st', true, u)) : MInv m st' :=
+  NR.Proofs.Group.unplanGroup_ok m st st' mbs u hinv h
+
+/-- a resource kept within [0, 10]: stop 1 loads 10, stops 2 and 3 take 5 each off -/
+def unplanTrap : Model Nat Int Unit :=
+  { eng := { step := fun p s => p + (if s = 1 then 10 else if s = 2 then -5 else if s = 3 then -5 else 0),
+             ok := fun v _ => decide (0 ≤ v ∧ v ≤ 10) },
+    inits := [0], scoreOf := fun _ => () }
+
+def unplanTrapState : MState Nat Int Unit :=
+  (applyOp unplanTrap { routes := [[]], vals := fun _ => 0, score := () } ⟨0, 0, [1, 2, 3]⟩).1
+
+/-- non-vacuity: the group {2, 1} on the route 1, 2, 3 — stop 2 comes off (levels 10, 5), taking stop 1 off as well would
+leave stop 3 at −5: rejected, stop 2 goes back, the route is 1, 2, 3 again; the group {2, 3} is un-planned completely. -/
+theorem c07_group_unplan_example :
+    unplanTrapState.routes = [[1, 2, 3]] ∧
+    (unplanGroup unplanTrap unplanTrapState [] [(0, [2]), (0, [1])]).2 = (false, true) ∧
+    (unplanGroup unplanTrap unplanTrapState [] [(0, [2]), (0, [1])]).1.routes = [[1, 2, 3]] ∧
+    (unplanGroup unplanTrap unplanTrapState [] [(0, [2]), (0, [3])]).2 = (true, true) ∧
+    (unplanGroup unplanTrap unplanTrapState [] [(0, [2]), (0, [3])]).1.routes = [[1]] := by
+  decide
+
 end NR.Props.C07G
 
 #print axioms NR.Props.C07G.c07_group_move_accepted_keeps_invariant
 #print axioms NR.Props.C07G.c07_group_move_rejected_restores_everything
 #print axioms NR.Props.C07G.c07_execution_order_rollback_counterexample
+#print axioms NR.Props.C07G.c07_group_unplan_rollback_restores
+#print axioms NR.Props.C07G.c07_group_unplan_accepted_keeps_invariant
+#print axioms NR.Props.C07G.c07_group_unplan_example
